@@ -525,13 +525,60 @@ func siteCount(p *prepInfo, files []string) int {
 	return n
 }
 
+var sdkFrameRe = regexp.MustCompile(`pluginsdk/(?:schema|atp)\.(?:\(\*?(\w+)(?:\[\.\.\.\])?\)\.|(\w+)\[\.\.\.\]\.)?(\w+)`)
+
+// fatalLine names a fatal error of a worker. A stack overflow is told apart by the SDK methods that recurse:
+// "unbounded recursion in ValidateCompatibility" is one defect, a recursion through Unserialize another.
 func fatalLine(stderr string) string {
+	line := "worker died"
 	for _, l := range strings.Split(stderr, "\n") {
-		if strings.HasPrefix(l, "fatal error:") || strings.HasPrefix(l, "panic:") || strings.Contains(l, "stack overflow") {
-			return trunc(strings.TrimSpace(l), 160)
+		if strings.HasPrefix(l, "fatal error:") || strings.HasPrefix(l, "panic:") {
+			line = trunc(strings.TrimSpace(l), 160)
+			break
 		}
 	}
-	return "worker died"
+	if !strings.Contains(line, "stack overflow") {
+		return line
+	}
+	// the methods on the overflowing goroutine's stack (its first few hundred frames are printed)
+	methods := map[string]bool{}
+	n := 0
+	for _, l := range strings.Split(stderr, "\n") {
+		if !strings.HasPrefix(l, "go.flow.arcalot.io/pluginsdk/") {
+			continue
+		}
+		m := sdkFrameRe.FindStringSubmatch(l)
+		if m == nil {
+			continue
+		}
+		n++
+		if n > 120 {
+			break
+		}
+		if !strings.HasPrefix(m[3], "func") {
+			methods[m[3]] = true
+		}
+	}
+	if len(methods) == 0 {
+		return line
+	}
+	compat := false
+	for k := range methods {
+		if strings.Contains(k, "Compatibility") {
+			compat = true
+		}
+	}
+	switch {
+	case methods["Unserialize"], methods["Serialize"], methods["Validate"], !compat:
+		var names []string
+		for k := range methods {
+			names = append(names, k)
+		}
+		sort.Strings(names)
+		return trunc(line+": unbounded recursion through "+strings.Join(names, ","), 220)
+	default:
+		return line + ": unbounded recursion in ValidateCompatibility (self-referencing schema)"
+	}
 }
 
 func infraExit(format string, a ...any) {
